@@ -11,11 +11,13 @@ import (
 	"bytes"
 	"encoding/binary"
 	"log/slog"
+	"net"
 	"net/netip"
 	"regexp"
 	"time"
 
 	"github.com/gaissmai/bart"
+	"github.com/miekg/dns"
 	"github.com/rcrowley/go-metrics"
 	"github.com/slackhq/nebula/cert"
 	"github.com/slackhq/nebula/config"
@@ -40,6 +42,8 @@ var (
 	_ *header.H
 	_ *handshake.Result
 	_ sshd.StringWriter
+	_ *dns.Msg
+	_ net.Addr
 	_ *util.ContextualError
 )
 
@@ -2803,3 +2807,125 @@ func specRemotePfx(p firewall.Packet) netip.Prefix {
 //@   ensures[local]  hm.Indexes != nil && has(hm.Indexes, hostinfo.localIndexId) && hm.Indexes[hostinfo.localIndexId] == hostinfo
 //@   ensures[remote] hm.RemoteIndexes != nil && has(hm.RemoteIndexes, hostinfo.remoteIndexId) && hm.RemoteIndexes[hostinfo.remoteIndexId] == hostinfo
 //@   loop 1 invariant hm.Hosts != nil && hm.moreHosts != nil && hm.Indexes != nil && hm.RemoteIndexes != nil && hm.l != nil
+
+// =====================================================================
+// C44 — the DNS responder answers only from authenticated data
+// =====================================================================
+//
+// Names are matched case-insensitively (strings.ToLower, a deterministic
+// function). Query answers an A (AAAA) question with exactly the address
+// recorded for the lower-cased name in the IPv4 (IPv6) map, an invalid address
+// when that map has no record, and reports the name as known exactly when
+// either map has it. Add (called only with the name and addresses of a verified
+// peer certificate, or our own) writes nothing when the responder is disabled;
+// otherwise it writes only under the lower-cased host name, and only addresses
+// taken from the list it was given (of the matching family). Certificate
+// details (TXT) are looked up only after isSelfNebulaOrLocalhost accepted the
+// client, which it does only for a loopback address or one of our own overlay
+// addresses. NXDOMAIN is set only when nothing was answered and no queried
+// name was known.
+
+//@ func specLower
+//@   opaque
+func specLower(s string) string { return s }
+
+//@ func strings.ToLower
+//@   trusted a pure function of the string
+//@   ensures result == specLower(s)
+//@   assigns nothing
+
+//@ func (*dnsServer).Query
+//@   trusted caller's view of the contract proved below (the read lock is taken and released: nothing the caller sees changes)
+//@   effect known if result1
+//@   requires d != nil
+//@   ensures[known] result1 == (has(d.dnsMap4, specLower(data)) || has(d.dnsMap6, specLower(data)))
+//@   ensures[a]     implies(q == dns.TypeA && has(d.dnsMap4, specLower(data)), result0 == d.dnsMap4[specLower(data)])
+//@   ensures[aaaa]  implies(q == dns.TypeAAAA && has(d.dnsMap6, specLower(data)), result0 == d.dnsMap6[specLower(data)])
+//@   ensures[none]  implies(!(q == dns.TypeA && has(d.dnsMap4, specLower(data))) && !(q == dns.TypeAAAA && has(d.dnsMap6, specLower(data))), !result0.IsValid())
+//@   assigns nothing
+//@ func (*dnsServer).Query impl
+//@   props C44
+//@   requires d != nil
+//@   ensures[known] result1 == (has(d.dnsMap4, specLower(data)) || has(d.dnsMap6, specLower(data)))
+//@   ensures[a]     implies(q == dns.TypeA && has(d.dnsMap4, specLower(data)), result0 == d.dnsMap4[specLower(data)])
+//@   ensures[aaaa]  implies(q == dns.TypeAAAA && has(d.dnsMap6, specLower(data)), result0 == d.dnsMap6[specLower(data)])
+//@   ensures[none]  implies(!(q == dns.TypeA && has(d.dnsMap4, specLower(data))) && !(q == dns.TypeAAAA && has(d.dnsMap6, specLower(data))), !result0.IsValid())
+
+//@ func (*dnsServer).Add impl
+//@   props C44
+//@   ghost kn string
+//@   requires d != nil && d.dnsMap4 != nil && d.dnsMap6 != nil && !same(d.dnsMap4, d.dnsMap6)
+//@   old lh = specLower(host)
+//@   old en = d.enabled.Load()
+//@   ensures[disabled] implies(!en, has(d.dnsMap4, kn) == old(has(d.dnsMap4, kn)) && d.dnsMap4[kn] == old(d.dnsMap4[kn]) && has(d.dnsMap6, kn) == old(has(d.dnsMap6, kn)) && d.dnsMap6[kn] == old(d.dnsMap6[kn]))
+//@   ensures[others]   implies(kn != lh, has(d.dnsMap4, kn) == old(has(d.dnsMap4, kn)) && d.dnsMap4[kn] == old(d.dnsMap4[kn]) && has(d.dnsMap6, kn) == old(has(d.dnsMap6, kn)) && d.dnsMap6[kn] == old(d.dnsMap6[kn]))
+//@   ensures[v4]       implies(has(d.dnsMap4, lh) && !(old(has(d.dnsMap4, lh)) && d.dnsMap4[lh] == old(d.dnsMap4[lh])), exists(func(q int) bool { return 0 <= q && q < len(addresses) && addresses[q] == d.dnsMap4[lh] && addresses[q].Is4() }))
+//@   ensures[v6]       implies(has(d.dnsMap6, lh) && !(old(has(d.dnsMap6, lh)) && d.dnsMap6[lh] == old(d.dnsMap6[lh])), exists(func(q int) bool { return 0 <= q && q < len(addresses) && addresses[q] == d.dnsMap6[lh] && addresses[q].Is6() }))
+//@   loop 1 invariant[v4] implies(has(d.dnsMap4, lh) && !(old(has(d.dnsMap4, lh)) && d.dnsMap4[lh] == old(d.dnsMap4[lh])), exists(func(q int) bool { return 0 <= q && q < rangeindex && addresses[q] == d.dnsMap4[lh] && addresses[q].Is4() }))
+//@   loop 1 invariant[v6] implies(has(d.dnsMap6, lh) && !(old(has(d.dnsMap6, lh)) && d.dnsMap6[lh] == old(d.dnsMap6[lh])), exists(func(q int) bool { return 0 <= q && q < rangeindex && addresses[q] == d.dnsMap6[lh] && addresses[q].Is6() }))
+//@   loop 1 invariant[others] implies(kn != lh, has(d.dnsMap4, kn) == old(has(d.dnsMap4, kn)) && d.dnsMap4[kn] == old(d.dnsMap4[kn]) && has(d.dnsMap6, kn) == old(has(d.dnsMap6, kn)) && d.dnsMap6[kn] == old(d.dnsMap6[kn])) && d.dnsMap4 != nil && d.dnsMap6 != nil && !same(d.dnsMap4, d.dnsMap6) && en
+//@   loop 1 assigns mapof(d.dnsMap4), mapof(d.dnsMap6)
+
+//@ func specHostOf
+//@   opaque
+func specHostOf(addr string) string { return addr }
+
+//@ func specParsedAddr
+//@   opaque
+func specParsedAddr(s string) netip.Addr { return netip.Addr{} }
+
+//@ func specAddrParses
+//@   opaque
+func specAddrParses(s string) bool { return false }
+
+//@ func net.SplitHostPort
+//@   trusted splits host:port, a pure function of the text
+//@   ensures result0 == specHostOf(hostport)
+//@   assigns nothing
+//@ func net/netip.ParseAddr
+//@   trusted standard library address parser, a pure function of the text
+//@   ensures (result1 == nil) == specAddrParses(s) && implies(result1 == nil, result0 == specParsedAddr(s))
+//@   assigns nothing
+//@ func (*dnsServer).certState
+//@   trusted the node's current certificate state (nil before the PKI is loaded)
+//@   ensures result == specCertState(d)
+//@   assigns nothing
+
+//@ func specCertState
+//@   opaque
+func specCertState(d *dnsServer) *CertState { return nil }
+
+//@ func (*dnsServer).isSelfNebulaOrLocalhost
+//@   props C44
+//@   effect trustedclient if result
+//@   requires d != nil
+//@   ensures[only] implies(result, specAddrParses(specHostOf(addr)) && (specParsedAddr(specHostOf(addr)).IsLoopback() || (specCertState(d) != nil && specCertState(d).myVpnAddrsTable != nil && liteContains(specCertState(d).myVpnAddrsTable, specParsedAddr(specHostOf(addr))))))
+//@   ensures[all]  implies(specAddrParses(specHostOf(addr)) && specParsedAddr(specHostOf(addr)).IsLoopback(), result)
+//@   assigns nothing
+
+//@ func (*dnsServer).QueryCert
+//@   trusted looks up the certificate of the named overlay address (our own, or a peer's from the hostmap of completed handshakes) and renders it
+//@   effect certlookup
+//@   assigns nothing
+//@ func github.com/miekg/dns.NewRR
+//@   trusted builds a resource record from its text form
+//@   assigns nothing
+//@ func github.com/miekg/dns.(ResponseWriter).RemoteAddr
+//@   trusted the client's address
+//@   ensures result != nil
+//@   assigns nothing
+//@ func net.(Addr).String
+//@   trusted text form of the address
+//@   assigns nothing
+
+//@ func (*dnsServer).parseQuery
+//@   props C44
+//@   ghost trustedclient int = 0
+//@   ghost certlookup int = 0
+//@   ghost known int = 0
+//@   old rcode0 = m.Rcode
+//@   ensures[nxdomain] implies(m == old(m) && m.Rcode == dns.RcodeNameError && rcode0 != dns.RcodeNameError, known == 0)
+//@   requires d != nil && d.l != nil && m != nil && w != nil
+//@   callrequires QueryCert trustedclient >= 1
+//@   ensures[txt] implies(certlookup >= 1, trustedclient >= 1)
+//@   loop 1 invariant implies(certlookup >= 1, trustedclient >= 1) && m != nil && 0 <= trustedclient && trustedclient <= rangeindex && 0 <= certlookup && certlookup <= rangeindex && 0 <= known && known <= rangeindex && anyNameExists == (known >= 1) && m == old(m) && m.Rcode == rcode0
